@@ -79,7 +79,7 @@ def processDefine (d : Tok) (s : Src) : Tok × Src :=
   let (racc, t, s1) := nextNotTrivia (fuelOf s) s d.text.reverse
   if t.kind == .Id then
     ({ kind := .PreProcessor, text := (t.text.reverseAux racc).reverse },
-     { s1 with macros := if s1.macros.contains t.text then s1.macros else t.text :: s1.macros })
+     { s1 with macros := t.text :: s1.macros })
   else
     ({ kind := .Error, text := (t.text.reverseAux racc).reverse },
      { s1 with prepErr := some "expected macro name after #define" })
@@ -96,6 +96,13 @@ def eat (s : Src) : Tok × Src :=
   | .Endif => ({ kind := .PreProcessor, text := t.text }, s1)
   | .Define => processDefine t s1
   | _ => (t, s1)
+
+/-- all tokens the parser would receive, up to (excluding) `Eof` -/
+def runAll : Nat → Src → Option (List Tok)
+  | 0, _ => none
+  | n+1, s =>
+    if (s.eat).1.kind == .Eof then some []
+    else (runAll n (s.eat).2).map ((s.eat).1 :: ·)
 
 end Src
 end Tg
